@@ -11,7 +11,7 @@ edge generators: cleaner_range / magnitude_bins / region xs, ys must be the doub
 import random
 from fractions import Fraction
 
-from vh.core import MachineryError, guarded, Raised
+from vh.core import MachineryError, guarded, Raised, other_surroundings
 from vh import alpha
 
 S = alpha.S
@@ -218,6 +218,24 @@ def run(chk, replay=None):
                                   {'kind': 'edges', 'start': float(s), 'end': float(end), 'step': float(h),
                                    'expected': expected[:8], 'first_bad_index': first,
                                    'got': repr(got)[:300]})
+                elif nb in (7, 66):
+                    # the array handed out belongs to the caller (bin centres are made with `edges += step / 2`): asking
+                    # again - also while the embedding program has other process-wide settings in force - gives the edges,
+                    # not the caller's array
+                    try:
+                        got += 0.5
+                        got[-1] = 99.0
+                    except (ValueError, TypeError):
+                        pass
+                    again = guarded(fn, float(s), float(end), float(h))
+                    with other_surroundings():
+                        third = guarded(fn, float(s), float(end), float(h))
+                    chk.count(2)
+                    for tag, g2 in (('asked again after the caller edited the first answer', again), ('asked in other surroundings', third)):
+                        if isinstance(g2, Raised) or [float(x) for x in g2] != expected:
+                            chk.violation('edges:%s:%s' % (fn_name, tag), {'kind': 'edges', 'start': float(s), 'end': float(end), 'step': float(h),
+                                          'expected': expected[:8], 'got': repr(g2)[:300]})
+                            break
                 chk.nontrivial('edges|%s|%s|%d' % (start, step, nb))
 
     # ---------------------------------------------------------------- 4. code -> trace on long axes
